@@ -88,7 +88,7 @@ fn walk<const AREA: usize, const CNT: usize, const ESZ: usize>() {
     cover!(k == 1 && yielded == 1, "walk from a mid state");
 }
 
-// @harness props=C19,C01 tier=quick panic=forbid
+// @harness props=C19,C01,C08 tier=quick panic=forbid
 // @encodes multiboot2::ElfSectionIter::{next,len} ElfSection::{get,section_type,section_type_raw,flags,is_allocated,start_address,size,addralign,end_address} ElfSectionInner32 (via &dyn)
 // @bound section area = exact 120-byte object (3 entries of 40 bytes), every entry byte symbolic, iterator started at a symbolic entry index
 #[cfg_attr(kani, kani::proof)]
@@ -97,7 +97,7 @@ pub fn c19_walk_elf32() {
     walk::<120, 3, 40>();
 }
 
-// @harness props=C19,C01 tier=quick panic=forbid
+// @harness props=C19,C01,C08 tier=quick panic=forbid
 // @encodes as c19_walk_elf32 with ElfSectionInner64
 // @bound section area = exact 128-byte object (2 entries of 64 bytes)
 #[cfg_attr(kani, kani::proof)]
@@ -115,7 +115,7 @@ pub fn c19_walk_elf64_4() {
     walk::<256, 4, 64>();
 }
 
-// @harness props=C19 tier=quick panic=allow must_panic=yes
+// @harness props=C19,C08 tier=quick panic=allow must_panic=yes
 // @encodes ElfSectionIter::next ElfSection::get with an entry size other than 40 / 64
 // @bound entry size symbolic in 0..=128 excluding 40 and 64, 1..=3 entries inside a 128-byte area
 #[cfg_attr(kani, kani::proof)]
